@@ -197,6 +197,84 @@ ROLE = {
 }
 
 
+# The role of a value is fixed by the method that creates or updates it (and the position in its result).  Method names
+# are interface, not locals; the table was filled by reading FactorAnalysisBase / ISVMachine / JFAMachine.
+ROLE_OF_RESULT = {
+    "initialize_XYZ": ("latent_x", "latent_y", "latent_z"),
+    "initialize": ("n_acc", "f_acc"),
+    "_sum_n_statistics": "n_acc",
+    "_sum_f_statistics": "f_acc",
+    "_compute_uprod": "UProd",
+    "_compute_vprod": ("VProd",),
+    "compute_latent_x": "latent_x",
+    "update_x": "latent_x",
+    "update_y": "latent_y",
+    "update_z": "latent_z",
+}
+
+
+def _role_of_param(name):
+    r = ROLE.get(name)
+    return r if r else (name if name in set(ROLE.values()) else None)
+
+
+def origin_roles(P, f, du, e, st, index=None, seen=None):
+    """(roles, defs): the roles a value is *created* with - a parameter of that role, the result of the method that
+    creates / updates that block, an element or alias of such a value - and the definitions that carry no such
+    evidence (their role is then decided by consistency between their uses).  Never by the name of a local."""
+    seen = seen if seen is not None else set()
+    roles, plain = set(), set()
+    if isinstance(e, ast.Subscript):
+        return origin_roles(P, f, du, e.value, st, index, seen)
+    if isinstance(e, ast.Call):
+        kind, fexpr, args, kws = P.peel_call(e, f)
+        name = fexpr.attr if isinstance(fexpr, ast.Attribute) else (fexpr.id if isinstance(fexpr, ast.Name) else None)
+        if name in ROLE_OF_RESULT:
+            r = ROLE_OF_RESULT[name]
+            if isinstance(r, str):
+                return {r}, plain
+            if index is not None and index < len(r):
+                return {r[index]}, plain
+            return (set(r) if len(r) == 1 else set()), plain
+        return roles, plain
+    if not isinstance(e, ast.Name):
+        return roles, plain
+    for d in du.reaching(st, e.id):
+        k = (id(d.stmt), d.var, d.index)
+        if k in seen:
+            continue
+        seen.add(k)
+        if d.how == "param":
+            r = _role_of_param(d.var)
+            if r:
+                roles.add(r)
+            continue
+        v = d.value
+        if v is None:
+            continue
+        idx = d.index if d.how in ("unpack", "iter") else None
+        if d.how == "iter" and isinstance(v, ast.Call) and isinstance(v.func, ast.Name) and v.func.id in ("zip", "enumerate"):
+            tgt = None
+            if v.func.id == "zip" and idx is not None and idx < len(v.args):
+                tgt = v.args[idx]
+            elif v.func.id == "enumerate" and idx == 1 and v.args:
+                tgt = v.args[0]
+            if tgt is not None:
+                r2, p2 = origin_roles(P, f, du, tgt, d.stmt, None, seen)
+                roles |= r2
+                plain |= p2
+            continue
+        if isinstance(v, (ast.Name, ast.Subscript, ast.Call)):
+            r2, p2 = origin_roles(P, f, du, v, d.stmt, idx, seen)
+            roles |= r2
+            plain |= p2
+            if not r2 and not p2:
+                plain.add(k)
+        else:
+            plain.add(k)
+    return roles, plain
+
+
 def check_arg_roles(P, R, caller_keys, rule="ARGROLE"):
     """At calls between factor-analysis kernels, each argument feeds the parameter of the same role."""
     n = 0
@@ -204,6 +282,7 @@ def check_arg_roles(P, R, caller_keys, rule="ARGROLE"):
         f = P.func(key)
         R.analysed(f)
         du = get_defuse(f, P)
+        by_def = {}
         for c in [x for x in walk_no_nested(f.node) if isinstance(x, ast.Call)]:
             kind, fexpr, args, kws = P.peel_call(c, f)
             if not (isinstance(fexpr, ast.Attribute) and isinstance(fexpr.value, ast.Name) and fexpr.value.id == f.self_name):
@@ -219,13 +298,20 @@ def check_arg_roles(P, R, caller_keys, rule="ARGROLE"):
                     continue
                 if isinstance(a, ast.Constant) and a.value is None:
                     continue
-                cc = cone(du, a, du.stmt_of(c), interproc=False)
-                roots = set(cc.params) | {d.var for d in cc.defs} | {n_.id for n_ in cc.nodes if isinstance(n_, ast.Name)}
-                # which role names appear in the argument's cone?
-                role_names = {r for r in set(ROLE.values()) if r in roots or (r + "_i") in roots}
+                role_names, plain = origin_roles(P, f, du, a, du.stmt_of(c))
+                what = f"{callee.qualname.split('.')[-1]}({p}={src(a)[:40]})"
+                for k in plain:
+                    by_def.setdefault(k, []).append((want, what, c.lineno))
                 if not role_names:
-                    continue  # derived from something else entirely (fresh initialisation): not a role mix-up
+                    continue  # created from something else entirely: decided by the consistency of its uses (below)
                 n += 1
                 ok = want in role_names
-                R.check(ok, rule, key, f"{callee.qualname.split('.')[-1]}({p}={src(a)[:40]})", f"{want} -> {p}", f"parameter {p} receives `{src(a)}` (role {sorted(role_names)}), expected the {want} of the same class: factors are crossed", c.lineno)
+                R.check(ok, rule, key, what, f"{want} -> {p}", f"parameter {p} receives `{src(a)}` (created as {sorted(role_names)}), expected the {want} of the same class: factors are crossed", c.lineno)
+        # values without a role-defining creator: all their uses must agree on one role
+        for k, uses in by_def.items():
+            wants = {w for w, _, _ in uses}
+            if len(uses) < 2:
+                continue
+            n += 1
+            R.check(len(wants) == 1, rule, key, f"{uses[0][1]} and {len(uses) - 1} other use(s) of the same value", f"always passed as {sorted(wants)[0]}", f"the same value is passed as {sorted(wants)} ({'; '.join(u[1] for u in uses[:4])}): factors are crossed", uses[0][2])
     return n
